@@ -57,6 +57,7 @@ func thorough(c *Ctx, spec *propSpec, extra map[string]interface{}) {
 		runtime.GC()
 		debug.FreeOSMemory()
 	}
+	theProg = c.P
 	extra["platforms"] = plats
 
 	// ---- 2. self-test ----
